@@ -85,9 +85,23 @@ class H(explore.Harness):
         self.expected.setdefault(name, [])
 
         if name.startswith("R"):
-            def cb(ev, log=log):
+            def raiser(ev, log=log):
                 log.append(dict(ev))
                 raise RuntimeError("listener failure")
+
+            kind = self.p.get("raiser", "function")
+            if kind == "partial":  # listeners need not be plain functions: functools.partial, callable objects, mocks
+                import functools
+
+                cb = functools.partial(raiser)
+            elif kind == "object":
+                class _Callable:
+                    def __call__(self_, ev):
+                        raiser(ev)
+
+                cb = _Callable()
+            else:
+                cb = raiser
         elif name.startswith("S"):
             def cb(ev, log=log, name=name):
                 log.append(dict(ev))
@@ -287,7 +301,8 @@ def run(ctx):
     quick = ctx.tier == "quick"
     configs = [
         (dict(alphabet=ALPH_SUBS, max_drops=2), 5 if quick else 7),
-        (dict(alphabet=ALPH_EVENTS, max_drops=1), 4 if quick else 6),
+        (dict(alphabet=ALPH_EVENTS, max_drops=1, raiser="partial"), 4 if quick else 6),
+        (dict(alphabet=["R+", "ev1", "ev2", "L2+", "drop"], max_drops=1, raiser="object"), 4 if quick else 5),
         (dict(alphabet=ALPH_OFFLINE, max_drops=2), 4 if quick else 6),
     ]
     if not quick:
